@@ -564,7 +564,15 @@ fn open_and_judge(ex: &mut Exec, img: &str, j_tables: usize, upper: usize, n: us
 	}
 	let j = *matching.last().unwrap();
 	if j < lo {
-		let class = if rewind_possible { "rewind-by-valid-older-records" } else { "older-than-tables" };
+		// a later intact record applied without the missing first pending one can coincide with
+		// an older state (e.g. two removals of which only the second was replayed)
+		let class = if rewind_possible {
+			"rewind-by-valid-older-records"
+		} else if first_pending_damaged {
+			"replay-starts-after-missing-first-log"
+		} else {
+			"older-than-tables"
+		};
 		ex.push_violation("C13", class, format!("state after opening damaged logs is S_{j}, older than what the tables already held (S_{j_tables})"));
 	} else {
 		let j = *matching.iter().find(|j| **j > hi).unwrap_or(&j);
